@@ -214,6 +214,8 @@ fn ref_text(s: &str) -> Option<Option<Vec<u8>>> {
                  for x in &nv { match num(x, u32::MAX as u64) { Some(v) => put32(&mut rd, v as u32), None => return if x.bytes().all(|c| c.is_ascii_digit()) { Some(None) } else { None } } }
                  wire(6, Some(rd)) }
         "DS" => { if rest.len() != 4 { return None; }
+                 // a numeric field that is a plain number above its range is an error (other shapes: no opinion)
+                 for (x, max) in [(rest[0], 65535u64), (rest[1], 255), (rest[2], 255)] { if num(x, max).is_none() && !x.is_empty() && x.len() < 15 && x.bytes().all(|c| c.is_ascii_digit()) { return Some(None); } }
                  let kt = num(rest[0], 65535)?; let alg = num(rest[1], 255)?; let dt = num(rest[2], 255)?;
                  let h = rest[3];
                  // a digest with a character that is not a hex digit is an error (when it is made of letters and digits only; other shapes: no opinion)
@@ -221,7 +223,11 @@ fn ref_text(s: &str) -> Option<Option<Vec<u8>>> {
                  if h.len() % 2 != 0 { return Some(None); }
                  let mut rd = vec![(kt >> 8) as u8, kt as u8, alg as u8, dt as u8]; rd.extend(unhex(&h.to_ascii_lowercase()).ok()?);
                  wire(43, Some(rd)) }
-        "AAAA" => None,
+        // AAAA: where the standard library reads the field as an IPv6 address, the record must carry exactly those sixteen bytes (other shapes: no opinion)
+        "AAAA" => { if rest.len() != 1 { return None; }
+                    // (the library reads hex digits and colons only: the embedded-IPv4 notation `::ffff:1.2.3.4` is outside its grammar -- no opinion there)
+                    if !rest[0].bytes().all(|c| c.is_ascii_hexdigit() || c == b':') { return None; }
+                    match rest[0].parse::<std::net::Ipv6Addr>() { Ok(a) => wire(28, Some(a.octets().to_vec())), Err(_) => None } }
         // a type keyword outside the nine supported ones is an error
         _ => if t.bytes().all(|c| c.is_ascii_alphabetic()) { Some(None) } else { None },
     }
@@ -336,7 +342,13 @@ pub fn gen(prop: &str, r: &mut Rng) -> Vec<String> {
                        let inner: String = (0..k).map(|_| *r.pick(&["a", "bc", " ", "\\000", "\\065", "\\255", "\\256", "\\300", "\\999", "\\25", "\\\"", "7", "\\2555"])).collect();
                        format!("{}{}\"{}\"", kw(r, "TXT"), ws(r), inner) }
                 0 => format!("{}{}{}", kw(r, "A"), ws(r), (0..4).map(|_| num(r, 255).to_string()).collect::<Vec<_>>().join(".")),
-                1 => format!("{}{}{:x}:{:x}::{:x}", kw(r, "AAAA"), ws(r), r.next() as u16, r.next() as u16, r.next() as u16),
+                1 => { let a = match r.below(6) {
+                           0 => format!("{:X}:{:x}::{:X}", r.next() as u16, r.next() as u16, r.next() as u16),
+                           1 => (0..8).map(|_| format!("{:x}", r.next() as u16)).collect::<Vec<_>>().join(":"),
+                           2 => "::".to_string(), 3 => "::1".to_string(),
+                           4 => format!("::ffff:{}.{}.{}.{}", r.below(256), r.below(256), r.below(256), r.below(256)),
+                           _ => format!("{:x}:{:x}::{:x}", r.next() as u16, r.next() as u16, r.next() as u16) };
+                       format!("{}{}{}", kw(r, "AAAA"), ws(r), a) }
                 2 => { let k = *r.pick(&["NS", "CNAME", "PTR"]); format!("{}{}{}", kw(r, k), ws(r), hn(r)) }
                 3 => format!("{}{}{}{}{}", kw(r, "MX"), ws(r), num(r, 65535), ws(r), hn(r)),
                 4 => format!("{}{}{}{}{}{}({} {} {} {} {}){}", kw(r, "SOA"), ws(r), hn(r), ws(r), hn(r), ws(r), num(r, 4294967295), r.next() as u32, r.below(5000000000), num(r, 4294967295), r.next() as u32, if r.chance(1, 3) { " " } else { "" }),
